@@ -35,10 +35,16 @@ BROKEN_KINDS = ["truncate", "delete_char", "insert_lt", "bad_entity"]
 _SDK_MODELS: Optional[List[str]] = None
 
 
+BIG = "common/aas_core_meta.v3"
+
+
 def prepare(tier: str) -> None:
+    """Generate and import every SDK once, before the workers are forked."""
     global _SDK_MODELS
     table = workload.usable_table()
     _SDK_MODELS = sorted(m for (m, t), st in table.items() if t == "python" and st == "ok")
+    for model in _SDK_MODELS + [BIG]:
+        S.load_sdk(model, workload.materialise({"model": model}))
 
 
 def describe() -> dict:
@@ -60,7 +66,7 @@ def describe() -> dict:
         "stub": ["the caller's stream: a TextIO whose read(n) returns seeded short reads"],
         "assumptions": [
             "input that is not well-formed XML is no 'XML document': xml.etree.ElementTree.ParseError is accepted next to DeserializationException there",
-            "only models for which the python target generates an importable SDK with the single qualified_module_name snippet are used",
+            "only corpus models for which the python target generates an importable SDK are used (23 small ones with the single qualified_module_name snippet + aas_core_meta.v3 with its fixture snippets)",
         ],
     }
 
@@ -72,6 +78,8 @@ def gen_plan(seed: int, run: int, tier: str) -> dict:
     rng = random.Random(f"{seed}:C10:{run}")
     models = _SDK_MODELS or []
     model = models[rng.randrange(len(models))]
+    if rng.random() < (0.1 if tier == "quick" else 0.25):
+        model = BIG
     chunkings = []
     for _ in range(int(tiers[tier]["chunkings"])):
         chunkings.append({"mode": rng.choice(["tiny", "tiny", "after_gt", "random", "one_cut",
